@@ -624,6 +624,16 @@ def fuel {α : Type} (t : Tree α) : Nat := 2 * t.size + 2
 /-- `walk.Generic(root, visitor, cursorConstructor)` on the branch tree `t` -/
 def generic {α : Type} (v : Visitor α) (t : Tree α) : State α := steps v (fuel t) (start t)
 
+/-- state after the initial `cursorConstructor(node)` when the visitor object has been used before: its handler is
+whatever the previous walk left behind -/
+def startFrom {α : Type} (h0 : Handler) (t : Tree α) : State α :=
+  match construct t with
+  | some c => { stack := [c], h := h0, log := [], ret := none }
+  | none => { stack := [], h := h0, log := [], ret := some .cursorError }
+
+/-- `walk.Generic` called with a visitor whose handler is in state `h0` (a REUSED visitor object) -/
+def genericFrom {α : Type} (h0 : Handler) (v : Visitor α) (t : Tree α) : State α := steps v (fuel t) (startFrom h0 t)
+
 /-- `walk.Generic` with a visitor given by its handler calls -/
 def genericCalls {α : Type} (v : CallVisitor α) (t : Tree α) : State α := generic (fun hist => actOf (v hist)) t
 
